@@ -1,7 +1,7 @@
 (* C14/Model.v : executions of one circuit object with a seeded random generator, and the
    parallel helpers.  The heap of result objects and measurement-gate caches is the machine of
-   C03/ModelResult.v (results share the circuit's M.result caches; circuit._final_state is the
-   last result).  No proofs here.
+   C03/ModelResult.v (every result reads only its own caches; the circuit's M.result caches are
+   write-only for results; circuit._final_state is the last result).  No proofs here.
 
    Randomness: numpy's global generator is an abstract deterministic machine
      seed : nat -> G,  gen_shots / gen_shuffle / gen_freqs : G -> request -> answer * G
@@ -41,7 +41,7 @@ Section Gen.
     | USamples r b rg =>
         match nth_error (m_results m) r with
         | Some R =>
-            if has _ (r_samples R) || g0_has_samples m
+            if has _ (r_samples R)
             then let '(m', x) := step cfg m (Samples r b rg []) in ((m', g), x)
             else
               let '(d, g') := match r_freqs R with
@@ -54,7 +54,7 @@ Section Gen.
     | UFreqs r b rg =>
         match nth_error (m_results m) r with
         | Some R =>
-            if has _ (r_freqs R) || g0_has_samples m || has _ (r_samples R)
+            if has _ (r_freqs R) || has _ (r_samples R)
             then let '(m', x) := step cfg m (Freqs r b rg []) in ((m', g), x)
             else
               let '(f, g') := gen_freqs g (r_probs R) (r_nshots R) in
